@@ -1104,11 +1104,11 @@ class Duration(AnyAtomicType):
             seconds = -seconds - (days * 24 + hours) * 3600 - minutes * 60
 
         if cls is DayTimeDuration:
-            if months:
+            if y is not None or mo is not None:
                 raise ValueError('months must be 0 for %r' % cls.__name__)
             return cls(seconds=seconds)
         elif cls is YearMonthDuration:
-            if seconds:
+            if d is not None or 'T' in text:
                 raise ValueError('seconds must be 0 for %r' % cls.__name__)
             return cls(months=months)
         return cls(months=months, seconds=seconds)
